@@ -109,7 +109,7 @@ class Integrator(object):
                             min_val = np.inf
                     dt_min = min(dt_min, min_val)
 
-            if dt_min > 0.0:
+            if dt_min > 0.0 and not np.isinf(dt_min):
                 return dt_min
             else:
                 return None
